@@ -122,7 +122,7 @@ def validate_trace(wd, case, out, idx, rep, tag):
 
 
 def check_outputs(rep, scen, outs, wd, tag, validate=True):
-    st = {"runs": 0, "sections": 0, "reads": 0, "heads": 0, "heads_ambiguous": 0, "vtx": 0, "events": 0, "accepted": 0, "stranded": 0}
+    st = {"runs": 0, "sections": 0, "reads": 0, "heads": 0, "heads_ambiguous": 0, "vtx": 0, "scans": 0, "events": 0, "accepted": 0, "stranded": 0}
     for i, (case, out) in enumerate(zip(scen, outs)):
         st["runs"] += 1
         rc = {"case": case, "tag": tag, "index": i}
@@ -151,13 +151,13 @@ def check_outputs(rep, scen, outs, wd, tag, validate=True):
                               "block %d stays in the orphan pool although its parent body is stored" % o)
         if validate:
             ok, s, n, why = validate_trace(wd, case, out, i, rep, tag)
-            for k in ("sections", "reads", "heads", "heads_ambiguous", "vtx"):
+            for k in ("sections", "reads", "heads", "heads_ambiguous", "vtx", "scans"):
                 st[k] += s[k]
             st["events"] += n
             if ok:
                 st["accepted"] += 1
             else:
-                kind = "Final" if '"Final"' in why else "VTx" if '"VTx"' in why else "Read" if '"Read"' in why else "Head" if '"Head"' in why else "End" if '"End"' in why else "Sec"
+                kind = "Final" if '"Final"' in why else "Scan" if '"Scan"' in why else "VTx" if '"VTx"' in why else "Read" if '"Read"' in why else "Head" if '"Head"' in why else "End" if '"End"' in why else "Sec"
                 rep.violation("conc:trace:rejected:%s" % kind, dict(rc, rejected=why[:600]), why[:300])
     return st
 
